@@ -360,6 +360,17 @@ func Replay(p Property, e *Env, path string) int {
 	return 1
 }
 
+// TraceRun prints the full trace of one run index (debugging aid).
+func TraceRun(p Property, e *Env, i int) int {
+	seed := Mix(e.Seed, p.ID(), uint64(i))
+	res := ExecTape(p, NewTape(seed), RunOpts{Tier: e.Tier, KeepTrace: true, IsKnown: e.isKnown})
+	for _, l := range res.Trace {
+		fmt.Println(l)
+	}
+	fmt.Printf("run %d seed %d steps %d infra=%q violation=%v\n", i, seed, res.Steps, res.Infra, res.Violation)
+	return 0
+}
+
 // Hashes prints the trace hash of runs [from, from+count) — used by the determinism self-test.
 func Hashes(p Property, e *Env, from, count int) int {
 	for i := from; i < from+count; i++ {
